@@ -335,7 +335,9 @@ func sigDoc(s *Node) (*etree.Document, *etree.Element) {
 }
 
 // SetKeyInfo rewrites the (unsigned) KeyInfo part of a signature.
-func (s *Node) SetKeyInfo(ki int, c int) {
+// More certificates after the first (which is the one both crewjam/saml and goxmldsig read) may be
+// given in extra: they are an unmodelled degree of freedom of the concrete document.
+func (s *Node) SetKeyInfo(ki int, c int, extra ...int) {
 	_, root := sigDoc(s)
 	if old := root.FindElement("./KeyInfo"); old != nil {
 		root.RemoveChild(old)
@@ -345,7 +347,11 @@ func (s *Node) SetKeyInfo(ki int, c int) {
 		k := root.CreateElement("ds:KeyInfo")
 		k.CreateElement("ds:KeyValue").CreateElement("ds:RSAKeyValue").CreateElement("ds:Modulus").SetText("AQAB")
 	case kiCert:
-		root.CreateElement("ds:KeyInfo").CreateElement("ds:X509Data").CreateElement("ds:X509Certificate").SetText(certB64(c))
+		xd := root.CreateElement("ds:KeyInfo").CreateElement("ds:X509Data")
+		xd.CreateElement("ds:X509Certificate").SetText(certB64(c))
+		for _, x := range extra {
+			xd.CreateElement("ds:X509Certificate").SetText(certB64(x))
+		}
 	case kiBad:
 		root.CreateElement("ds:KeyInfo").CreateElement("ds:X509Data").CreateElement("ds:X509Certificate").SetText("!!not base64!!")
 	}
@@ -403,7 +409,12 @@ func Enc(p *Node, st int) *Node {
 	case 1:
 		n.Raw = encryptRaw([]byte(p.Render()), otherKeyName)
 	case 2:
-		n.Raw = encryptRaw([]byte(p.Render()+"<trailing"), spKeyName)
+		if n.Cid%2 == 0 && strings.Contains(p.Render(), "</saml:NameID>") {
+			// well-formed for etree, signature-neutral, but refused by the round-trip validator
+			n.Raw = encryptRaw([]byte(strings.Replace(p.Render(), "</saml:NameID>", "<![CDATA[]]></saml:NameID>", 1)), spKeyName)
+		} else {
+			n.Raw = encryptRaw([]byte(p.Render()+"<trailing"), spKeyName)
+		}
 	case 3:
 		n.Raw = encryptRaw([]byte("<!-- nothing here -->"), spKeyName)
 	}
